@@ -15,6 +15,7 @@ import (
 	"path/filepath"
 	"regexp"
 	"sort"
+	"strings"
 	"strconv"
 	"sync"
 	"time"
@@ -372,6 +373,13 @@ func RunSharded(r *Run, n int, perWorkerTimeout time.Duration) {
 			if len(tail) > 3000 {
 				tail = tail[len(tail)-3000:]
 			}
+			if fn := repoCrash(x.out); fn != "" {
+				// the worker died of a panic / fatal error raised in a goroutine running repository code: the client process
+				// would have died the same way, which no property tolerates - a violation, not a broken check
+				r.Violate("process-crash/"+fn, "the client process survives the scenario (an unrecovered panic in repository code ends every guarantee of the property)",
+					map[string]interface{}{"worker": x.i, "shard": fmt.Sprintf("%d/%d", x.i, n)}, string(tail))
+				continue
+			}
 			r.mu.Lock()
 			if r.Broken == "" {
 				r.Broken = fmt.Sprintf("worker %d failed: %v\n%s", x.i, x.err, tail)
@@ -388,4 +396,29 @@ func RunSharded(r *Run, n int, perWorkerTimeout time.Duration) {
 		}
 		os.Remove(x.path)
 	}
+}
+
+var crashHead = regexp.MustCompile(`(?m)^(panic: |fatal error: )`)
+var crashFrame = regexp.MustCompile(`(?m)^goroutine \d+ \[running\]:\n(?:(?:panic|runtime|sync|reflect|internal)[^\n]*\n\t[^\n]*\n)*([^\n]+)`)
+
+// repoCrash returns the repository function on top of the crashing goroutine's stack when a worker's output shows a Go panic or
+// fatal error whose first non-runtime frame is repository code (not the harness, not the shim packages); "" otherwise.
+func repoCrash(out []byte) string {
+	loc := crashHead.FindIndex(out)
+	if loc == nil {
+		return ""
+	}
+	m := crashFrame.FindSubmatch(out[loc[0]:])
+	if m == nil {
+		return ""
+	}
+	fn := string(m[1])
+	if i := strings.LastIndex(fn, "("); i > 0 {
+		fn = fn[:i]
+	}
+	const mod = "seata.apache.org/seata-go/pkg/"
+	if len(fn) > len(mod) && fn[:len(mod)] == mod && !regexp.MustCompile(`/(vshim|verif)`).MatchString(fn) {
+		return fn[len(mod):]
+	}
+	return ""
 }
